@@ -7,3 +7,4 @@ import Dtr.Props.C02
 #print axioms Dtr.C02_default_write_input
 #print axioms Dtr.C02_next_calls_continued
 #print axioms Dtr.C02_continued_run
+#print axioms Dtr.C02_quiescent_after_none_continued
